@@ -112,10 +112,12 @@ const (
 	brkCaseName    // the pointer names an entry that differs from an existing one by letter case only
 	brkUnsetMember // the pointer goes one token further, into a member the target's type knows but the target does not hold
 	brkThroughBool // the pointer goes through an additionalProperties / additionalItems that is a boolean
+	brkUnsetMap    // the pointer ends on a map-valued member the target does not hold (patternProperties)
+	brkUnsetSlice  // the pointer ends on a list-valued member the target does not hold (oneOf)
 	nBreaks
 )
 
-var breakNames = []string{"ok", "pointer-nowhere", "document-missing", "target-string", "target-number", "target-boolean", "target-array", "target-null", "pointer-case-variant", "pointer-into-unset-member", "pointer-through-boolean-union"}
+var breakNames = []string{"ok", "pointer-nowhere", "document-missing", "target-string", "target-number", "target-boolean", "target-array", "target-null", "pointer-case-variant", "pointer-into-unset-member", "pointer-through-boolean-union", "pointer-onto-unset-map-member", "pointer-onto-unset-list-member"}
 
 // breakRef rewrites a (correct) reference so that it is unresolvable in the given way.
 func breakRef(ref string, mode int) string {
@@ -148,6 +150,10 @@ func breakRef(ref string, mode int) string {
 		return docPart + "#/x-bad/Z"
 	case brkThroughBool:
 		return docPart + "#/definitions/BoolUnion/additionalProperties/title"
+	case brkUnsetMap:
+		return docPart + "#/definitions/BoolUnion/patternProperties"
+	case brkUnsetSlice:
+		return docPart + "#/definitions/BoolUnion/oneOf"
 	case brkUnsetMember:
 		if strings.Contains(ref, "#") {
 			return ref + "/not"
@@ -513,7 +519,8 @@ func (g *gspec) build() *built {
 		if g.Place[0] == 0 && g.Shape[0] == 0 {
 			return // N0 itself is a definition of the root
 		}
-		member(root, "definitions")["Entry"] = obj("title", "entry", "properties", obj("n0", n0(rootURL)))
+		// (twice: what the first visit learns about cycles is used by the second)
+		member(root, "definitions")["Entry"] = obj("title", "entry", "properties", obj("n0", n0(rootURL), "n0again", n0(rootURL)))
 	}
 	bodyParam := func(from string) map[string]interface{} {
 		return obj("name", "b", "in", "body", "schema", n0(from))
